@@ -1,7 +1,7 @@
 CONFIG = {
     "id": "C17",
     "coq_targets": ["Gen/FormulasInfo.v", "Gen/FormulasAttr.v", "Gen/FormulasHeal.v", "Proofs/FormulasInfoProofs.v", "Proofs/FormulasAttrCoreProofs.v", "Proofs/FormulasHealProofs.v",
-                    "Props/C17.v", "Model/HealCheck.v", "Model/HealTerms.v"],
+                    "Props/C17.v", "Model/HealCheck.v", "Model/HealTerms.v", "Model/SimCheck.v"],
     "prop_files": ["Props/C17.v"],
     "gen": ["FormulasInfo", "FormulasAttr", "FormulasHeal"],
     "components": [{
@@ -12,6 +12,15 @@ CONFIG = {
         "case_type": "case",
         "ops_path": [2],
         "n_quick": 800, "n_thorough": 40000, "shard": 100,
+    }, {
+        # heals issued by content through the engine entry point (simulation.Heal -> combat.Heal) inside whole
+        # battles: flat-value heals of the living, of units at zero HP awaiting revival and of the dead, from
+        # actions, inserts and listeners (the whole-simulation model of C03/C08/C09/C11 carries them); a
+        # disagreement is reported as a correspondence that no longer checks
+        "name": "sim", "modules": ["Base.NumOps", "Model.Turn", "Model.Sim", "Model.SimCheck"],
+        "check": "check_case", "monitor": "monitor_c03", "model_out": "monitor_detail",
+        "case_type": "case", "ops_path": None, "mismatch_is_violation": False,
+        "n_quick": 450, "n_thorough": 6000, "shard": 150,
     }],
     "rule": "2-4 units (id pool 1..4 plus one unregistered id) with generated HP/ATK/DEF base/percent/flat/convert, "
             "outgoing/incoming heal bonuses and HP ratio (full, partial, zero, above 1), a set of units whose limbo wait is "
